@@ -2,6 +2,7 @@ import PiqpModel
 import PiqpModel.Driver.KKTCmd
 import PiqpModel.Driver.SolCmd
 import PiqpModel.Driver.SkelCmd
+import PiqpModel.Driver.LdlCmd
 open Piqp Piqp.Driver
 
 structure DState where
@@ -43,6 +44,10 @@ def handle (st : DState) (line : String) : DState × List String :=
       match st.skelH with
       | some h => ({ st with skelH := none, skelObs := #[] }, skelReplay h st.skelObs.toList)
       | none => (st, ["error skel.end without begin"])
+    else if cmd.startsWith "ldl." || cmd.startsWith "util." || cmd.startsWith "ord." then
+      match runP (ldlStep cmd) args with
+      | .ok out => (st, out)
+      | .error e => (st, ["error " ++ e])
     else if cmd = "sol.new" then
       match runP smNew args with
       | .ok sm => ({ st with sm := some sm }, [])
